@@ -168,6 +168,7 @@ class Tap(object):
                 fid, idx, cnt = struct.unpack(">HHH", fragment[:6])
                 cur = (id(conn), fid, idx - 1, cnt)
             tap.current_fragment = cur
+            conn._verif_processed = True
             try:
                 return o["frag"](conn, msgseq, fragment)
             finally:
@@ -197,6 +198,40 @@ class Tap(object):
                             tap.counters.inc("reassembly_contexts_expired_incomplete")
             return res
 
+        # ---- message level (C08): which application messages of an accepted datagram are processed, which are dropped as duplicates
+        self._orig["recv_message"] = CB._recv_message
+        self._orig["recv_app"] = CB._recvApp
+
+        def _recvApp(conn, msgseq, msg):
+            conn._verif_processed = True
+            return o["recv_app"](conn, msgseq, msg)
+
+        def _recv_message(conn, pkt_typ, msgseq, msg):
+            ptype = getattr(pkt_typ, "value", pkt_typ)
+            if ptype not in (6, 7):
+                return o["recv_message"](conn, pkt_typ, msgseq, msg)
+            e = tap.end(conn)
+            seen = getattr(e, "msg_seen", None)
+            if seen is None:
+                seen = e.msg_seen = set()
+            top = int(conn.bitfield_msg.current_seqnum)
+            seq = int(msgseq)
+            behind = ring_diff(top, seq) if top else -1
+            conn._verif_processed = False
+            cur0 = tap.current_fragment
+            try:
+                return o["recv_message"](conn, pkt_typ, msgseq, msg)
+            finally:
+                processed = bool(conn._verif_processed)
+                tap.fan("message_verdict", e, seq, ptype, top, behind, seq in seen, processed)
+                if processed:
+                    seen.add(seq)
+                    if len(seen) > 4096:
+                        top2 = int(conn.bitfield_msg.current_seqnum)
+                        e.msg_seen = {x for x in seen if ring_diff(top2, x) < 1024}
+        CB._recv_message = _recv_message
+        CB._recvApp = _recvApp
+
         C.FragmentReceiver.expired = expired
         CB._recv_datagram = _recv_datagram
         CB._handle_ack = _handle_ack
@@ -219,6 +254,8 @@ class Tap(object):
         C.Packet.to_bytes = self._orig["to_bytes"]
         C.FragmentReceiver.expired = self._orig["expired"]
         CB._recvAppFragment = self._orig["frag"]
+        CB._recv_message = self._orig["recv_message"]
+        CB._recvApp = self._orig["recv_app"]
         self.installed = False
 
     def _on_wire(self, direction, addr, datagram, client, n):
@@ -665,6 +702,18 @@ class RecvMonitor(object):
         self.before = None
         self.resolution = None           # ResolutionMonitor, set by it
         tap.listeners.append(self)
+
+    def message_verdict(self, e, seq, ptype, top, behind, seen_before, processed):
+        """C08 at message level: inside the 256-window a message is dropped as a duplicate exactly when it was processed before"""
+        self.c.inc("message_verdicts")
+        if not processed and not seen_before and behind < 256:
+            self.report("C08", "message-false-duplicate", "message seq %d (type %d) was dropped as a duplicate although it was never received before; it is %s the 256-message window (top %d)" % (
+                seq, ptype, ("%d behind the top of" % behind) if behind >= 0 else "ahead of", top))
+        elif processed and seen_before and 0 <= behind < 256:
+            self.report("C08", "message-duplicate-not-flagged", "message seq %d (type %d) was processed again although it was received before and is %d behind the top of the 256-message window" % (
+                seq, ptype, behind))
+        elif not processed:
+            self.c.inc("message_duplicates_flagged")
 
     def before_recv(self, e, datagram):
         conn = e.conn
